@@ -142,6 +142,73 @@ def programs_C09(rng, tier):
         else:
             # metamorphic shape: the same operation with the literal routed through a local (nothing folds)
             out.append([("decl", "int64_t", (True, 64), "t", a), wr("RddV", ("bin", "+", var("t", "int64_t"), b))])
+    # conditions that are conversions of literals: whatever is decided at compile time must apply the conversion first
+    for txt in ("0x100", "0x10000", "0x100000000LL", "0x30000", "0xff00", "0x180", "0x80", "256", "65536", "1", "0"):
+        for ts in (["int8_t"], ["uint8_t"], ["int16_t"], ["uint16_t"], ["uint32_t"], ["int64_t", "uint16_t"], ["int32_t", "int8_t"], ["uint64_t", "uint8_t"]):
+            c = lit(txt)
+            for t in reversed(ts):
+                c = ("cast", t, T[t], c)
+            out.append([wr("RdV", ("tern", c, reg("RsV"), reg("RtV")))])
+            if rng.random() < 0.3:
+                out.append([("if", c, [wr("RdV", one)], [wr("RdV", ("lit", "2", 2, (True, 32)))])])
+                out.append([("if", ("not", c), [wr("RdV", one)], [wr("RdV", ("lit", "2", 2, (True, 32)))])])
+    return out
+
+
+def _c_lit_type(txt):
+    """C11 6.4.4.1 type of an integer constant (int = 32 bit, long long = 64 bit); mirrors Lean's litTypeC"""
+    body, sfx = txt, ""
+    while body and body[-1] in "uUlL":
+        sfx = body[-1].upper() + sfx
+        body = body[:-1]
+    hexa = body.lower().startswith("0x")
+    v = int(body, 16 if hexa else 10)
+    if sfx == "":
+        t = (True, 32) if v < 2 ** 31 else (False, 32) if hexa and v < 2 ** 32 else (True, 64) if v < 2 ** 63 else (False, 64)
+    elif sfx == "U":
+        t = (False, 32) if v < 2 ** 32 else (False, 64)
+    elif sfx == "LL":
+        t = (True, 64) if v < 2 ** 63 else (False, 64)
+    else:
+        t = (False, 64)
+    return v, t
+
+
+def _c_common(a, b):
+    if a[0] == b[0]:
+        return (a[0], max(a[1], b[1]))
+    sg, us = (a, b) if a[0] else (b, a)
+    return (False, us[1]) if us[1] >= sg[1] else (True, sg[1])
+
+
+def _as_type(v, t):
+    v %= 2 ** t[1]
+    return v - 2 ** t[1] if t[0] and v >= 2 ** (t[1] - 1) else v
+
+
+DIV_PAIRS = [("6", "3"), ("7", "2"), ("1", "0"), ("0", "0ULL"), ("100", "7"), ("0xFFFFFFFFFFFFFFFFULL", "2ULL"), ("0x7FFFFFFFFFFFFFFFLL", "1LL"),
+             ("0x8000000000000001ULL", "3"), ("9007199254740993LL", "1"), ("9007199254740993LL", "3LL"), ("0xFFFFFFFF", "0x10"),
+             ("4294967295U", "5"), ("0x100000000LL", "0x10"), ("18446744073709551615ULL", "18446744073709551615ULL"),
+             ("0x7FFFFFFFFFFFFFFFLL", "0x7FFFFFFFFFFFFFFELL"), ("1000000007", "1000003"), ("0x20000000000001LL", "2")]
+
+
+def division_items():
+    """`RddV = a / b;` on literals (C09: fold exactly or reject). The C side of each item is the literal C11 prescribes;
+    a zero divisor has no C value: compiling it at all is the violation."""
+    out = []
+    for op in ("/", "%"):
+        for a, b in DIV_PAIRS:
+            (va, ta), (vb, tb) = _c_lit_type(a), _c_lit_type(b)
+            t = _c_common(ta, tb)
+            x, y = _as_type(va, t), _as_type(vb, t)
+            src = "{ RddV = (%s %s %s); }" % (a, op, b)
+            if y == 0:
+                out.append({"ast": None, "src": src, "features": set(), "must_reject": "division by a zero constant"})
+                continue
+            q = abs(x) // abs(y) * (1 if (x >= 0) == (y >= 0) else -1)
+            r = q if op == "/" else x - q * y
+            pat = _as_type(r, t) % 2 ** 64       # converted to the 64-bit destination (sign-extended iff t is signed)
+            out.append({"ast": [wr("RddV", ("lit", hex(pat) + "ULL", pat, (False, 64)))], "src": src, "features": set(), "no_tie": True})
     return out
 
 
@@ -333,6 +400,8 @@ def run_prop(prop: str, tier: str, replay=None) -> int:
         if explicit_rw_mixed(a):
             f.add("explicit_rw_mixed")
         items.append({"ast": a, "src": gen.prog_src(a), "features": f})
+    if prop == "C09" and not replay:
+        items += division_items()
     parsed = rc.parse_programs([it["src"] for it in items])
     c = rc.compiler("READ_STATEMENTS")
     for it, pr in zip(items, parsed):
@@ -388,7 +457,7 @@ def run_prop(prop: str, tier: str, replay=None) -> int:
         cnt["states_skipped_C_undefined"] += d["skipped"]
         if len(samples) < 3:
             samples.append({"program": it["src"], "carve_out_classes": sorted(feats), "tree_equal": d["tree-equal"], "states": d["ran"]})
-        if not d["tree-equal"]:
+        if not d["tree-equal"] and not it.get("no_tie"):
             import re as _re2
             # identifiers standing alone as an operand (an undeclared C variable in the emitted text)
             bare = lambda t: set(_re2.findall(r'(?<![\w"&>.*])([A-Za-z_]\w*)(?=[,)])', t)) - {"pkt", "hi", "bundle", "true", "false", "IL_TRUE", "IL_FALSE"}
@@ -406,6 +475,10 @@ def run_prop(prop: str, tier: str, replay=None) -> int:
                 viol.append({"what": "the emitted effect does not compute what the C text computes: " + d["fail"], "program": it["src"],
                              "ast": json.dumps(it["ast"]), "carve_out_classes": sorted(feats), "real_tree": d["real"][:3000],
                              "reproduce": f"Compiler(ArchEnum.HEXAGON).compile_c_stmt({it['src']!r}); interpret the returned effect from the reported state"})
+    for it in items:
+        if it.get("must_reject") and it.get("status") == "ok":
+            viol.append({"what": f"{it['must_reject']} is compiled instead of being rejected", "program": it["src"], "emitted": it["text"]["READ_STATEMENTS"][:1500],
+                         "reproduce": f"Compiler(ArchEnum.HEXAGON).compile_c_stmt({it['src']!r})"})
     viol.extend(sub_problems)
     # the tie: a real tree the model does not predict
     for tb in tie_broken[:3]:
